@@ -71,6 +71,27 @@ checks.update({
    text="140 (quick) / 5k (thorough) generated telemetry directories (data files by the exact patterns, 15 near-misses, data-named directories empty/non-empty, symlinks, foreign files, missing local/upload, ten mode-file states) x command sequences of length 1-6 over {on, local, off, clean, env}: clean leaves no regular data file and touches nothing else; mode commands touch only the mode file, not even its mtime when the mode already reads as requested, else env and the file show the requested mode with today's UTC date.",
    note="The command is main() reached by re-executing the test binary with XDG_CONFIG_HOME/HOME redirected. Data-named directories/symlinks are don't-care.", ref="§2 C19"),
 })
+
+# additions made while the checks were strengthened (kept separate so the base texts stay readable)
+more_text = {
+ "C01": " A second unit drives the public upload.Run entry point (config from a local module proxy directory) and a family of programs whose stack counters share stacks across programs.",
+ "C02": " A further unit runs the public counter package (Open, Inc, Add, NewStack, CountFlags, growth) in re-executed processes with the mode file reading off (plain, dated, padded) over empty and populated directories: the directory snapshot must be identical afterwards.",
+ "C03": " In addition: free-running passes of the same programs on real goroutines with random jitter at the instrumented points (logical lock-wait bound instead of wall-clock), a unit under the Go race detector (any report in the counter/mmap packages is a violation), and a trap on the library's own 'counter bug' exit (debugFatalf/os.Exit with CrashOnBugs set), which must never fire on a healthy file.",
+ "C04": " A dedicated family makes every bucket-colliding record land in a new 16 KiB page and parks a stale process right after each of its re-map steps while another process links a further record one page on. The library's 'counter bug' exit (CrashOnBugs) is trapped: a healthy shared file must never be judged corrupt. A second unit uses real OS processes (3-8 workers, SIGKILL at random instants, consistent snapshots of the live file) and checks the recorded Add histories per counter name with porcupine against a fetch-and-add register.",
+ "C05": " The public counter API is additionally exercised in re-executed processes over hostile telemetry directories. Unmapped regions are quarantined (bounded FIFO) so that use-after-unmap faults instead of passing silently.",
+ "C07": " Plus a race-detector unit over concurrent uploaders in one process and a fault unit (every fs call of the upload path failed in turn: a counter file may be deleted only if a report holding its counts exists).",
+ "C08": " Server answers are drawn from 200/400/401/403/404/413/429/499 and 500-599 (incl. 501/502/504/505/507/511/521/599) or dropped; a race-detector unit runs the same scenario free-running.",
+ "C09": " A ticking clock (each CounterTime call later than the last) checks that one span computation uses one instant; an existing file whose recorded end differs from the setting in force must not be adopted.",
+ "C11": " For a name shared by a counter and stack counters the viewer's listing is judged per name (listed iff the uploader omits at least one entry), over repeated renderings.",
+ "C12": " Valid reports are also re-uploaded under an already stored week and X with shorter and longer bodies: the object must decode to exactly the last report.",
+ "C13": " After the first merge a stored report is replaced under the same name (usually by a smaller one), sometimes another arrives, and the day is re-merged and the range re-charted: results must be a function of the stored set only.",
+ "C14": " Variants include multi-line, tab-indented panic values that quote goroutine dumps with genuine PCs; one real crash panics with such a value.",
+ "C16": " Every other token race case fails one or all of the token file's Stat/Remove/OpenFile calls with ENOSPC/EACCES/EMFILE/EROFS/EIO/ENOENT/EDQUOT: only a caller whose exclusive create succeeded may report the token as acquired.",
+ "C18": " Name pools include siblings differing by .tmp/~/.part/.lock/.swp suffixes or a leading dot, and listings/reads of all other objects are checked while one object is half-written.",
+ "C19": " Commands run under varying TZ settings; the recorded date must be the UTC date.",
+}
+for k, v in more_text.items():
+    checks[k]["text"] += v
 todo = {
 }
 names = ["C%02d" % i for i in range(1, 20)]
